@@ -3,7 +3,7 @@
 Model spec grammar (JSON-able):
 
   model  := node | {"shared": [node, ...], "root": node}
-  node   := {"k": "leaf", "id": str, "b": [lo, hi], "str": bool?}
+  node   := {"k": "leaf", "id": str, "b": [lo, hi], "str": bool?, "sub": bool?, "dt": "int"|"bool"?, "dt_only": bool?}
           | {"k": "ref", "i": int}                              # i-th shared compound (same object)
           | {"k": "AtLeast", "v": int, "s": 1|-1|null, "id": str|null, "fix": 0|1|null, "c": [node...]}
           | {"k": "AtMost",  "v": int, "id":..., "fix":..., "c": [...]}
@@ -60,6 +60,11 @@ def node(spec, shared=None):
             return spec["id"]
         if spec.get("sub"):
             return item_class()(spec["id"], b)
+        if spec.get("dt"):
+            # declared with the documented dtype argument next to (or instead of) explicit bounds
+            if spec["dt"] == "int" and b == (-32768, 32767) and spec.get("dt_only"):
+                return puan.variable(spec["id"], dtype="int")
+            return puan.variable(spec["id"], b, dtype=spec["dt"])
         return puan.variable(spec["id"], b)
     if k == "ref":
         return shared[spec["i"]]
@@ -130,7 +135,8 @@ def clear_caches():
 def polyhedron(spec):
     """{"m": [[b, a1, ...], ...], "vars": [[id, lo, hi], ...] (A columns), "index": [ids]|null}"""
     puan, pg, pnd, cc = mods()
-    variables = [puan.variable.support_vector_variable()] + [puan.variable(v[0], (v[1], v[2])) for v in spec["vars"]]
+    variables = [puan.variable.support_vector_variable()] + [
+        (puan.variable(v[0], (v[1], v[2]), dtype=v[3]) if len(v) > 3 and v[3] else puan.variable(v[0], (v[1], v[2]))) for v in spec["vars"]]
     index = spec.get("index") or []
     index = [puan.variable(i, (0, 1)) for i in index]
     if spec.get("dtype"):
